@@ -4,9 +4,9 @@
 
    Source: x/basket/keeper/mint_burn_swap.go (MintBasketToken, BurnBasketToken, BasketSwap),
    x/basket/types/basket.go (RatesAndIndexes, Increase/DecreaseBasketTokens, ValidateTokensCap,
-   AverageDisbalance, SlippageFee), x/basket/keeper/basket_action_history.go (Register*Action,
-   GetLimitsPeriod*Amount, ClearOld*Amounts), x/basket/keeper/basket.go (EditBasket),
-   x/basket/keeper/hooks.go, x/basket/keeper/msg_server.go (Disable*), x/basket/abci.go.
+   AverageDisbalance, SlippageFee), x/basket/keeper/basket_action_history.go (RegisterXAction,
+   GetLimitsPeriodXAmount, ClearOldXAmounts), x/basket/keeper/basket.go (EditBasket),
+   x/basket/keeper/hooks.go, x/basket/keeper/msg_server.go (DisableX), x/basket/abci.go.
 
    Denominations are integers (the harness numbers them in the byte order of their names, the
    basket's own denomination is 0); accounts are integers, 0 is the basket module account.
@@ -130,7 +130,7 @@ Fixpoint abs_disbalances (avg : dec) (vs : list dec) : outcome dec :=
 Definition avg_disbalance (ts : list token) : outcome dec :=
   match ts with
   | [] => Ok 0
-  | _ => let n := dec_of_int (Z.of_nat (length ts)) in
+  | _ => let n := dec_of_int (Z.of_nat (List.length ts)) in
          do vs <- token_values ts;
          do avg <- dquo (zsum vs) n;
          do tot <- abs_disbalances avg vs;
@@ -148,7 +148,7 @@ Fixpoint register (h : history) (t x : Z) : history :=
   | [] => [(t, x)]
   | (t', y) :: r => if t' =? t then (t', y + x) :: r else (t', y) :: register r t x
   end.
-(* GetLimitsPeriod*Amount: every entry from now - period on *)
+(* GetLimitsPeriodXAmount: every entry from now - period on *)
 Definition period_sum (h : history) (now period : Z) : Z :=
   zsum (map snd (filter (fun e => now - period <=? fst e) h)).
 Definition clear_old (h : history) (now period : Z) : history :=
@@ -208,14 +208,13 @@ Definition burn (v : variant) (s : state) (now a d x : Z) : outcome state :=
   let S := if v_burn_pre v then s_supply s else supply' in
   do portion <- dquo (dec_of_int x) (dec_of_int S);
   do outs <- withdraw_coins (b_tokens b) portion;
-  match outs with [] => Err "not able to withdraw any tokens" | _ =>
+  do _ <- (match outs with [] => Err "not able to withdraw any tokens" | _ => Ok tt end);
   if negb (has_funds (s_bal s) MODULE outs) then Err "insufficient funds" else
   do ts <- dec_tokens (b_tokens b) outs;
   do capok <- validate_cap (b_cap b) ts;
   if negb capok then Err "token exceeding cap" else
   let bal := send (bal_add (s_bal s) a BDENOM (- x)) MODULE a outs in
-  Ok (mkS (set_amount (set_tokens b ts) (b_amount b - x)) bal supply' (s_hm s) hb (s_hs s))
-  end.
+  Ok (mkS (set_amount (set_tokens b ts) (b_amount b - x)) bal supply' (s_hm s) hb (s_hs s)).
 
 (* ---------------------------------------------------------------- swap *)
 Record swap_acc := mkA { a_ts : list token; a_sur : coins; a_bal : Z -> Z -> Z; a_hs : history; a_outs : coins }.
@@ -256,19 +255,19 @@ Fixpoint swap_pairs (b : basket) (now a : Z) (acc : swap_acc) (ps : list (Z * Z 
   | p :: r => do acc' <- swap_pair b now a acc p; swap_pairs b now a acc' r
   end.
 
-Fixpoint final_outs (one_minus_fee : dec) (outs : coins) : outcome coins :=
+(* finalOutCoins, and outAmounts.Sub(finalOutCoins...) = what the slippage fee keeps, per out
+   denomination (outAmounts is a sorted sdk.Coins: one entry per denomination) *)
+Fixpoint final_outs (one_minus_fee : dec) (outs : coins) : outcome (coins * coins) :=
   match outs with
-  | [] => Ok []
+  | [] => Ok ([], [])
   | (d, x) :: r =>
       do f <- dmul (dec_of_int x) one_minus_fee;
       let y := trunc_int f in
       if y <? 0 then Panic "negative coin amount" else
       do rest <- final_outs one_minus_fee r;
-      Ok (if y =? 0 then rest else (d, y) :: rest)
+      if x - y <? 0 then Panic "negative coin amount" else
+      Ok ((if y =? 0 then fst rest else (d, y) :: fst rest), (d, x - y) :: snd rest)
   end.
-(* outAmounts.Sub(finalOutCoins...): per denomination, zero differences disappear *)
-Definition coins_diff (outs finals : coins) : coins :=
-  fold_right (fun c acc => let x := snd c - coin_of finals (fst c) in if x =? 0 then acc else (fst c, x) :: acc) [] outs.
 
 Definition swap (s : state) (now a : Z) (ps : list (Z * Z * Z)) : outcome state :=
   let b := s_bk s in
@@ -276,10 +275,11 @@ Definition swap (s : state) (now a : Z) (ps : list (Z * Z * Z)) : outcome state 
   do old <- avg_disbalance (b_tokens b);
   do acc <- swap_pairs b now a (mkA (b_tokens b) (b_surplus b) (s_bal s) (s_hs s) []) ps;
   do fee <- slippage_fee (b_slip b) (a_ts acc) old;
-  do finals <- final_outs (dec_one - fee) (a_outs acc);
+  do ff <- final_outs (dec_one - fee) (a_outs acc);
+  let finals := fst ff in
   if negb (has_funds (a_bal acc) MODULE finals) then Err "insufficient funds" else
   let bal := send (a_bal acc) MODULE a finals in
-  let sur := coins_add_all (a_sur acc) (coins_diff (a_outs acc) finals) in
+  let sur := coins_add_all (a_sur acc) (snd ff) in
   do capok <- validate_cap (b_cap b) (a_ts acc);
   if negb capok then Err "token exceeding cap" else
   Ok (mkS (set_surplus (set_tokens b (a_ts acc)) sur) bal (s_supply s) (s_hm s) (s_hb s) (a_hs acc)).
